@@ -62,35 +62,33 @@ fn family(p0: &'static str, p1: &'static str, module: &'static str) {
     kani::cover!(got, "accepted");
 }
 
-/// Single-registration families (quick tier): one concrete registered path (present or not, any level), optional
-/// default of any level, concrete event module, any typed event level.
-fn family1(p0: &'static str, module: &'static str) {
+/// Single-registration families (quick tier): one concrete registered path with any level, a default of any level
+/// in some families, concrete event module, any typed event level.
+fn family1(p0: &'static str, module: &'static str, with_default: bool) {
     let mut map = MinLevelPathMap::new();
-    let has_default: bool = kani::any();
     let dflt: usize = kani::any();
     kani::assume(dflt < 4);
-    if has_default { map.default_min_level(LEVELS[dflt]); }
-    let use0: bool = kani::any();
+    if with_default { map.default_min_level(LEVELS[dflt]); }
     let l0: usize = kani::any();
     kani::assume(l0 < 4);
-    if use0 { map.min_level(Path::new_raw(p0), LEVELS[l0]); }
+    map.min_level(Path::new_raw(p0), LEVELS[l0]);
     let el: usize = kani::any();
     kani::assume(el < 4);
     let got = map.matches(Event::new(Path::new_raw(module), Template::literal("t"), Empty, ("lvl", LEVELS[el])));
-    let min = if use0 && under(module, p0) { Some(l0) } else if has_default { Some(dflt) } else { None };
+    let min = if under(module, p0) { Some(l0) } else if with_default { Some(dflt) } else { None };
     let want = match min { Some(min) => LEVELS[el] >= LEVELS[min], None => true };
     assert!(got == want, "the rule of the longest registered ancestor-or-self applies, else the default, else accept");
     core::mem::forget(map);
-    kani::cover!(use0 && !got, "rejected");
     kani::cover!(got, "accepted");
+    kani::cover!(!got, "opt:rejected");
 }
 
 macro_rules! fam1 {
-    ($name:ident, $p0:expr, $m:expr) => {
+    ($name:ident, $p0:expr, $m:expr, $d:expr) => {
         #[kani::proof]
         #[kani::unwind(12)]
         #[kani::stub(emit_core::value::Value::parse, parse_unreachable)]
-        pub fn $name() { family1($p0, $m); }
+        pub fn $name() { family1($p0, $m, $d); }
     };
 }
 
@@ -104,13 +102,13 @@ macro_rules! fam {
 }
 
 // quick: single registration
-fam1!(c17_q_pathmap1_exact, "a::b", "a::b");
-fam1!(c17_q_pathmap1_descendant, "a", "a::b::c");
-fam1!(c17_q_pathmap1_prefix_sibling, "a", "aa");
-fam1!(c17_q_pathmap1_prefix_sibling_child, "a::b", "a::bb::c");
-fam1!(c17_q_pathmap1_ancestor_only, "a::b", "a");
-fam1!(c17_q_pathmap1_skipped_segment, "noisy", "app::noisy");
-fam1!(c17_q_pathmap1_inner_mismatch, "a::b", "a::x::b");
+fam1!(c17_q_pathmap1_exact, "a::b", "a::b", false);
+fam1!(c17_q_pathmap1_descendant, "a", "a::b::c", false);
+fam1!(c17_q_pathmap1_prefix_sibling, "a", "aa", true);
+fam1!(c17_q_pathmap1_prefix_sibling_child, "a::b", "a::bb::c", false);
+fam1!(c17_q_pathmap1_ancestor_only, "a::b", "a", true);
+fam1!(c17_q_pathmap1_skipped_segment, "noisy", "app::noisy", false);
+fam1!(c17_q_pathmap1_inner_mismatch, "a::b", "a::x::b", true);
 // thorough: two registrations in symbolic order
 fam!(c17_t_pathmap_nested, "a", "a::b", "a::b::c");
 fam!(c17_t_pathmap_prefix_sibling, "a", "aa", "aa");
